@@ -33,6 +33,8 @@ pub enum Fate {
     Detached,
     /// finishes, but a grandchild keeps the pipes open for `ns`
     BgHold { ns: u64 },
+    /// closes stdout and stderr (`exec >&- 2>&-`) and only then runs on for `ns` (None: forever)
+    CloseThenLinger { ns: Option<u64> },
 }
 
 #[derive(Clone, Debug)]
@@ -144,6 +146,18 @@ impl G {
                 ops.push(Op::Sleep { ns: 50 * MS });
                 ops.push(Op::Status { code: 0 });
                 no_expectations = true;
+            }
+            Fate::CloseThenLinger { ns } => {
+                emit(&mut ops, n, 0);
+                ops.push(Op::CloseFd { fd: 1 });
+                ops.push(Op::CloseFd { fd: 2 });
+                match ns {
+                    Some(ns) => {
+                        ops.push(Op::Sleep { ns: *ns });
+                        ops.push(Op::Status { code: 0 });
+                    }
+                    None => ops.push(Op::Hang),
+                }
             }
             Fate::BgHold { ns } => {
                 emit(&mut ops, n, 0);
@@ -342,6 +356,11 @@ pub fn fate_catalogue() -> Vec<(&'static str, Plan)> {
         ("slow-timeout", Plan::new(Fate::Slow { ns: 10 * SEC }).cfg(TestCfg { timeout_ns: Some(3 * SEC), ..Default::default() })),
         ("detached", Plan::new(Fate::Detached)),
         ("bg-hold", Plan::new(Fate::BgHold { ns: 500 * MS })),
+        ("close-then-linger-short", Plan::new(Fate::CloseThenLinger { ns: Some(300 * MS) })),
+        (
+            "close-then-linger-past-timeout",
+            Plan::new(Fate::CloseThenLinger { ns: Some(30 * SEC) }).cfg(TestCfg { timeout_ns: Some(2 * SEC), ..Default::default() }),
+        ),
     ]
 }
 
@@ -364,7 +383,13 @@ pub fn lane_fates(tier: Tier, seed: u64) -> Vec<Scenario> {
     let streams = [Stream::Stdout, Stream::Stderr, Stream::Combined];
     for script in [false, true] {
         for (name, plan) in fate_catalogue() {
-            if script && (plan.cfg.timeout_ns.is_some() || plan.fate == Fate::Detached || plan.cfg.skip_code.is_some()) {
+            if script
+                && (plan.cfg.timeout_ns.is_some()
+                    || plan.fate == Fate::Detached
+                    || plan.cfg.skip_code.is_some()
+                    // closing the one shell's outputs also swallows scrut's own dividers
+                    || matches!(plan.fate, Fate::CloseThenLinger { .. }))
+            {
                 continue; // per-test settings are not available in single-script mode
             }
             for pos in 0..3usize {
@@ -467,6 +492,8 @@ pub enum DurClass {
     Long,
     Hang,
     BgHold,
+    /// closes its outputs at once, then keeps running well past the limit
+    CloseLinger,
 }
 
 /// the systematic timing cross product of DESIGN §5.2
@@ -481,6 +508,7 @@ pub fn lane_timing(tier: Tier, seed: u64) -> Vec<Scenario> {
         DurClass::Long,
         DurClass::Hang,
         DurClass::BgHold,
+        DurClass::CloseLinger,
     ];
     // document limit: absent (-> 900 s), 0 = unlimited, short; given in front-matter or on the command line
     #[derive(Clone, Copy, Debug, PartialEq)]
@@ -565,7 +593,7 @@ pub fn lane_timing(tier: Tier, seed: u64) -> Vec<Scenario> {
                             };
                             let dur_ns = match (cls, bite) {
                                 (DurClass::Short, _) => 10 * MS,
-                                (DurClass::Hang, _) | (DurClass::BgHold, _) => 0,
+                                (DurClass::Hang, _) | (DurClass::BgHold, _) | (DurClass::CloseLinger, _) => 0,
                                 (_, None) => match cls {
                                     DurClass::Long => 7200 * SEC,
                                     _ => SEC,
@@ -576,7 +604,10 @@ pub fn lane_timing(tier: Tier, seed: u64) -> Vec<Scenario> {
                                 (DurClass::Long, Some(b)) => b * 3 + SEC,
                                 _ => unreachable!(),
                             };
-                            if bite.is_none() && matches!(cls, DurClass::Hang | DurClass::BgHold) {
+                            if script && cls == DurClass::CloseLinger {
+                                continue;
+                            }
+                            if bite.is_none() && matches!(cls, DurClass::Hang | DurClass::BgHold | DurClass::CloseLinger) {
                                 continue; // nothing bounds the wait: scrut legitimately waits forever
                             }
                             let mut sim = base_sim(g.rng.next_u64());
@@ -589,6 +620,7 @@ pub fn lane_timing(tier: Tier, seed: u64) -> Vec<Scenario> {
                                     let fate = match cls {
                                         DurClass::Hang => Fate::Hang,
                                         DurClass::BgHold => Fate::BgHold { ns: bite.unwrap_or(SEC) * 2 + SEC },
+                                        DurClass::CloseLinger => Fate::CloseThenLinger { ns: Some(bite.unwrap_or(SEC) * 2 + SEC) },
                                         _ => Fate::Slow { ns: dur_ns },
                                     };
                                     let mut p = Plan::new(fate);
